@@ -193,6 +193,51 @@ def run(run, tier, replay=None):
     for i in bad[:5]:
         run.violation("correspondence", {**meta_info[i], "note": "Project.build no longer has the file effects of Fs.build_steps (proved convergent in FsThm.v)"})
     hostile(run, tier)
+    hooks(run, tier)
+
+
+def hooks(run, tier):
+    """post hooks (the default ones are `ruff check --fix .` / `ruff format .`: they rewrite whatever *.py is below their working directory):
+    a marker hook must run INSIDE the output directory in every flavour, and leave everything around it untouched"""
+    import sys
+    marker = "hook_marker.txt"
+    hook = f'{sys.executable} -c "import os,glob; open({marker!r},\'w\').write(os.getcwd()); [open(f,\'a\').write(\'#fmt\') for f in glob.glob(\'*.py\')]"'
+    D = docs()
+    terms, info = [], []
+    for meta in ["none", "poetry", "pdm", "setup"]:
+        pkg = doc_record(D[0], meta)[2]
+        for ow in (False, True):
+            root = Path(tempfile.mkdtemp(prefix="opc_k_"))
+            try:
+                (root / "app.py").write_text("x = 1\n")
+                (root / "sibling").mkdir()
+                (root / "sibling" / "__init__.py").write_text("y = 2\n")
+                if ow:
+                    impl.Gen(D[1], meta=meta, root=root)
+                g = impl.Gen(D[0], meta=meta, root=root, overwrite=ow, cfg={"post_hooks": [hook]})
+                case = {"meta": meta, "post_hook": "marker", "overwrite": ow}
+                run.note_case(case, nontrivial=True, kind="post-hook")
+                if g.exc is not None:
+                    run.violation("oracle", {**case, "note": "generate raised", "error": repr(g.exc)})
+                    continue
+                found = sorted(str(p.relative_to(root)) for p in root.rglob(marker))
+                outside = {"app.py": (root / "app.py").read_text(), "sibling/__init__.py": (root / "sibling" / "__init__.py").read_text(),
+                           "listing": sorted(x.name for x in root.iterdir())}
+                if outside != {"app.py": "x = 1\n", "sibling/__init__.py": "y = 2\n", "listing": ["app.py", "doc.json", "out", "sibling"]} or found != ["out/" + marker]:
+                    run.violation("oracle", {**case, "doc": D[0], "marker_found_at": found, "outside": outside,
+                                             "note": "a post hook ran outside the output directory (files next to it were created or rewritten)"})
+                for f in found:
+                    rel = f.split("/")[1:] if f.startswith("out/") else ["..", *f.split("/")]
+                    terms.append(f"path_eqb (hook_cwd {FL[meta]} {cstr(pkg)} ++ [{cstr(marker)}]) [{'; '.join(cstr(c) for c in rel)}]")
+                    info.append(case)
+            finally:
+                shutil.rmtree(root, ignore_errors=True)
+    bad = run_cases(HDR, terms, shard=60) if terms else []
+    run.corr["cases"] += len(terms)
+    run.corr["mismatches"] += len(bad)
+    run.corr["what"] += "; working directory of post hooks == Fs.hook_cwd"
+    for i in bad[:3]:
+        run.violation("correspondence", {**info[i], "note": "post hooks no longer run in Fs.hook_cwd (the output directory)"})
 
 
 HOSTILE_NAMES = ["../evil", "/abs/evil", "..", ".", "a/../../evil", "..\\evil", "C:\\evil", "evil/", "~/evil", "a\x00b", "....//", "%2e%2e%2fevil", "$ " * 33 + "/tmp/evil"]
